@@ -444,6 +444,40 @@ func (w *Worker) fpConvCmpConv(op token.Token, x, y Value) (Value, bool) {
 	return lowerBool(r), true
 }
 
+// intToFloat is float64(i) for a symbolic integer. The term keeps the shape
+// to_fp(RNE, to_real i) so that comparisons against constants and against
+// other conversions are rewritten into integer arithmetic; under
+// AbstractFloatArith the conversion is sent to
+// the solver as an opaque float64 (one per distinct integer term) tied to i
+// only through its sign, because the exact conversion of a 64-bit integer
+// makes every query that mentions it take seconds.
+func (w *Worker) intToFloat(i *Term) *Term {
+	rm := &Term{op: "const", sort: SFP, raw: "RNE", size: 1}
+	t := tFP("(_ to_fp 11 53)", SFP, rm, newTerm("to_real", SInt, i))
+	if !w.absFloatArith {
+		return t
+	}
+	p := w.path
+	h1, h2 := i.hash()
+	key := fmt.Sprintf("i2f/%x.%x", h1, h2)
+	if p.opaque == nil {
+		p.opaque = map[string]*Term{}
+	}
+	v, ok := p.opaque[key]
+	if !ok {
+		v = p.freshFP()
+		p.opaque[key] = v
+		zero := fpConstLit(0)
+		p.assertTerm(tOr(tNot(tGe(i, intConst(0))), tFP("fp.geq", SBool, v, zero)))
+		p.assertTerm(tOr(tNot(tLe(i, intConst(0))), tFP("fp.leq", SBool, v, zero)))
+		p.assertTerm(tNot(tFP("fp.isNaN", SBool, v)))
+		p.assertTerm(tNot(tFP("fp.isInfinite", SBool, v)))
+		w.stub("float64(i) of a 64-bit symbolic integer: opaque finite float64 with the sign of i (comparisons with constants and other conversions stay exact/monotone)")
+	}
+	t.alias = v
+	return t
+}
+
 // fpIntOrigin recognises a float that is the exact conversion of an integer
 // (|i| <= 2^53): such conversions are injective and monotone.
 func fpIntOrigin(v Value) (*Term, bool) {
@@ -685,7 +719,8 @@ func (fr *frame) conv(tDst, tSrc types.Type, x Value, pos token.Pos) Value {
 						return f
 					case *Term:
 						rm := &Term{op: "const", sort: SFP, raw: "RNE", size: 1}
-						return tFP("(_ to_fp 11 53)", SFP, rm, newTerm("to_real", SInt, v))
+						_ = rm
+						return w.intToFloat(v)
 					}
 				}
 				if ud.Info()&types.IsString != 0 {
